@@ -20,4 +20,8 @@ def run(rep, fb, tier):
     _pr2.rule_py_call_signature(rep)
     from ..rules import lints as _lz
     _lz.rule_virtual_unwrap_first(rep, fb)
+    from ..rules import lints as _lw
+    _lw.rule_ctor_roles(rep, fb)
+    from ..rules import lints as _lv
+    _lv.rule_call_roles(rep, fb)
     rep.units = fb.units + ["src/awkward/partition.py, _util.py, operations/structure.py (ast)"]
